@@ -160,7 +160,14 @@ def strandClass (k : Kind) (cancelCfg : Nat) (l : List Ev) (p : Pos) (t : Nat) :
     let b := match cb, lastWend with                        -- Close was called before the drain reached finishShardDrain
       | some c, some w => c < w
       | _, _ => false
-    if n1 && n2 && b then "mailbox-drain-window" else "mailbox-other"
+    -- no drain of the shard was ever observed after the item was submitted: the Submit scheduled one that never ran
+    let noDrainSince : Bool := match getPos p.sub t, lastW with
+      | some st, some w => decide (w < st)
+      | some _, none => true
+      | none, _ => false
+    if n1 && n2 && b then "mailbox-drain-window"
+    else if noDrainSince then "mailbox-submit-wgadd-window"
+    else "mailbox-other"
   | .bp =>
     match cb, ce, getPos p.sub t, getPos p.acc t with
     | some c, some e, some st, some a =>
